@@ -120,6 +120,24 @@ def eval_group(arg):
                     data[(pos + 97 * j) % len(data)] ^= 0xFF
                 open(arch, "wb").write(bytes(data))
                 expect_fail = None  # a flip may or may not be detected by gzip/tar; either all or nothing
+            elif kind == "bad-identifier-row":
+                # the archive index names a task with a string that is not an identifier; the directory it
+                # would denote exists in the archive, so only the identifier check can stop the restore
+                shutil.rmtree(work, ignore_errors=True)
+                os.makedirs(work)
+                subprocess.run(["tar", "xzf", good, "-C", work], check=True)
+                bad = fault["ident"]
+                c = sqlite3.connect(os.path.join(work, "version_index_archive.sqlite"))
+                c.execute("INSERT INTO version_index (task_identifier, timestamp, git_commit_hash, has_uncommitted_changes) VALUES (?, 777, NULL, 0)", (bad,))
+                c.commit()
+                c.close()
+                path_part, _, name_part = bad[2:].rpartition(":") if bad.startswith("//") else bad.rpartition(":")
+                try:
+                    os.makedirs(os.path.join(work, path_part, "%s.task.777" % name_part), exist_ok=True)
+                    open(os.path.join(work, path_part, "%s.task.777" % name_part, "f"), "w").write("x")
+                except (OSError, ValueError):
+                    pass
+                subprocess.run(["tar", "czf", arch, "-C", work] + sorted(os.listdir(work)), check=True)
             elif kind == "garbage":
                 open(arch, "wb").write(b"this is not an archive\n" * 50)
             elif kind == "dup":
@@ -263,6 +281,7 @@ def main(tier, n=None):
         faults += [{"kind": "truncate-bytes", "cut": c} for c in ([1, 8, 9, 64, 512, 1024, 1536] if tier == "quick" else [1, 2, 4, 8, 9, 16, 64, 128, 511, 512, 513, 1024, 1536, 2048, 4096, 10240])]
         faults += [{"kind": "flip", "frac": rng.random(), "n": rng.choice([1, 1, 3])} for _ in range(3 if tier == "quick" else 12)]
         faults += [{"kind": "dup", "pos": p} for p in ("first", "middle", "last")]
+        faults += [{"kind": "bad-identifier-row", "ident": i} for i in rng.sample(["//exp :e", "//exp:e\n", "//a:b:e", "exp:e", "//a.b:e", "//:", "//x/:e e"], 2)]
         faults += [{"kind": "preexisting-dir", "i": rng.randrange(100)} for _ in range(2)]
         faults += [{"kind": "sigkill", "delay": rng.uniform(0.0, 0.08)} for _ in range(4 if tier == "quick" else 24)]
         groups.append((base, faults))
